@@ -75,6 +75,7 @@ from ._state_token import (
     _resolve_state_cls,
     _ResolvedCall,
     _StateInfo,
+    _unbind_method,
 )
 
 if TYPE_CHECKING:
@@ -444,6 +445,7 @@ def _run_http_exchange_init(
             call_id,
             app._token_key,
             auth,
+            method=method_name,
         )
         outcome.response_state_bytes = state_bytes
 
@@ -531,7 +533,7 @@ def _run_stream_exchange_sync(
             resolved_call,
             call_id,
             request_state_bytes,
-        ) = _unpack_and_recover_state(app, token, call_token, state_info, auth)
+        ) = _unpack_and_recover_state(app, token, call_token, state_info, auth, method_name=method_name)
         output_schema = resolved_call.output_schema
         input_schema = resolved_call.input_schema
         stream_id = resolved_call.stream_id
@@ -748,6 +750,7 @@ def _run_http_exchange_turn(
             call_id,
             app._token_key,
             auth,
+            method=method_name,
         )
         outcome.response_state_bytes = updated_state_bytes
         out.merge_data_metadata(pa.KeyValueMetadata({STATE_KEY: updated_token}))
@@ -1077,6 +1080,7 @@ def _run_http_producer_turn(
                         call_id,
                         app._token_key,
                         auth,
+                        method=method_name,
                     )
                     outcome.response_state_bytes = state_bytes
                     token_md: dict[bytes, bytes] = {STATE_KEY: token}
@@ -1124,6 +1128,8 @@ def _unpack_and_recover_state(
     call_token: bytes | None,
     state_info: _StateInfo,
     auth: AuthContext | None,
+    *,
+    method_name: str | None = None,
 ) -> tuple[StreamState, _ResolvedCall, bytes, bytes]:
     """Open a cursor token, resolve its call, and rebuild the state object.
 
@@ -1152,6 +1158,10 @@ def _unpack_and_recover_state(
             concrete class is resolved from the numeric tag embedded in
             ``state_bytes``.
         auth: Authenticated identity for the current request.
+        method_name: The stream method whose ``/exchange`` endpoint received
+            the request.  When given, the cursor must have been minted by
+            that method's stream; a cursor minted by any other method is
+            rejected before the call is resolved or any state is rebuilt.
 
     Returns:
         ``(state_object, resolved_call, call_id, state_bytes)``.
@@ -1169,6 +1179,8 @@ def _unpack_and_recover_state(
 
     """
     state_bytes, call_id = _open_cursor_token(token, app._token_key, _compute_aad(auth), app._token_ttl)
+    if method_name is not None:
+        state_bytes = _unbind_method(state_bytes, method_name)
 
     now = time.time()
     resolved = app._call_state_cache.get(call_id, auth, now)
